@@ -120,6 +120,12 @@ package analyzer
 //@ trusted addAccountToIndex
 //@   modifies idx.All, idx.ByPrefix[*]
 
+//@ func orderedFiles
+//@   props C15
+//@   requires resolved != nil
+//@   ensures [fresh] fresh(result) || len(result) == 0
+//@   loop 1 invariant fresh(journals) || len(journals) == 0
+
 //@ func collectPayeesFromResolved
 //@   props C15
 //@   requires resolved != nil
